@@ -149,6 +149,7 @@ type VC struct {
 	ifaceAsserted   map[string]types.Type
 	concreteTags    map[string]types.Type
 	fnTags          map[*ssa.Function]int
+	boundTags       map[string]int
 	covers          []*Obligation
 	modTop          []modLoc // modifies set of the function under verification (entry state)
 	entry           *State
@@ -174,6 +175,7 @@ func NewVC(p *Prog, fn *ssa.Function, c *Contract) *VC {
 	vc.env.Decl("gomod", "(define-fun gomod ((a Int) (b Int)) Int (- a (* b (godiv a b))))")
 	vc.env.DeclFun("impl", []Sort{SInt, SInt}, SBool)
 	vc.env.DeclFun("fn_code", []Sort{SInt}, SInt)
+	vc.env.DeclFun("fn_recv", []Sort{SInt}, SInt)
 	return vc
 }
 
